@@ -171,6 +171,7 @@ def run_history(ev, fa, fb, fc, n):
         peer_midfrag = False      # peer is in the middle of a fragmented PAYLOAD
         o.closed = False
         o.app_cancelled = False
+        o.cancel_peer_done = False
         o.cancel_at = None        # index into subscriber log / wire at the moment of the local cancel
         o.inbound_cancel = 0
         o.inbound_cancel_emitted_before = None
@@ -263,6 +264,7 @@ def run_history(ev, fa, fb, fc, n):
                 else:
                     continue
                 o.app_cancelled = True
+                o.cancel_peer_done = peer_done or peer_dead
                 o.applied.append('app:cancel' + ('(racing-next-event)' if concb(c) else ''))
                 if concb(c):
                     continue          # race: the next event happens before the loop runs the cancel's callbacks
